@@ -963,6 +963,9 @@ func (s *Seq) OpMeltQuote(inv *lnInvoice, unit string, mppMsat uint64, invMode i
 	case 0:
 		req.Request = inv.request
 		invSx = L(A("inv"), I(inv.id))
+		if inv.forgedOf != nil {
+			invSx = L(A("forged"), I(inv.id), I(inv.forgedOf.id))
+		}
 	case 1:
 		req.Request = "lnbc1" + hex.EncodeToString(s.c.Rng.Bytes(10))
 	case 2:
@@ -1000,7 +1003,7 @@ func (s *Seq) OpMeltQuote(inv *lnInvoice, unit string, mppMsat uint64, invMode i
 			s.c.MonitorFail("C02", "C02/meltquote/amount-rounded-down", fmt.Sprintf("melt quote amount %d sat does not cover the %d msat that will be paid", hq.Amount, pay), s.replay())
 		}
 		for _, mq := range s.mintQs {
-			if mq.Hash == inv.hash {
+			if mq.Hash == inv.hash && inv.forgedOf == nil {
 				hq.Internal = true
 			}
 		}
@@ -1063,8 +1066,9 @@ func (s *Seq) OpMeltLn(q *HMeltQ, ps []ReqProof, script []string, lnFail bool) s
 	state := ""
 	// which mint quote would be settled internally
 	var internal *HMintQ
+	// (only a melt of the mint quote's OWN invoice pays that quote; another invoice with the same payment hash does not)
 	for _, mq := range s.mintQs {
-		if mq.Hash == q.Inv.hash {
+		if mq.Hash == q.Inv.hash && q.Inv.forgedOf == nil {
 			internal = mq
 		}
 	}
